@@ -3,10 +3,12 @@
     extracted inductive types.  Run in the directory where model.ml should land. *)
 From Coq Require Import ExtrOcamlBasic.
 From Rsbdd Require Import Core.Bdd Core.Ops Check.Prog Check.Checkers.
+From Rsbdd Require Import Lang.Ast Lang.Eval Syntax.Token Syntax.Lexer Syntax.Tokenize Syntax.Parser Cli.Table Cli.TableFilter Cli.Pipeline.
 Extraction Language OCaml.
 Extraction "model.ml"
   bdd_eqb mk beval robddb ordb redb support height
   band bor bnot bimplies bite beq bxor bnor bnand bvar bconst aln amn exn
   count_leq count_lt count_geq count_gt count_eq bex1 bex ball fp_f bmodel binfer retain clean
   rebuild_lit build_tt run run_infer
-  verdict_fun verdict_model verdict_retain verdict_infer find_diff.
+  verdict_fun verdict_model verdict_retain verdict_infer find_diff
+  lex_raw tokenize parse eval_f parsed_formula parsed_of_tokens ident_names name_table name_of ordering_of_file cli.
